@@ -27,8 +27,11 @@ open SpecModel
 /-- member names of all generated struct tables -/
 def keywordList : List String := Gen.structs.flatMap fun e => tableNames e.2
 
-/-- `k` is not a case variant of a keyword: whatever keyword it folds onto, it IS that keyword -/
-def NameOK (k : String) : Prop := ∀ n ∈ keywordList, foldName k = foldName n → k = n
+/-- `k` is not a case variant of a keyword: whatever keyword it folds onto, it IS that keyword; and if it is a
+vendor extension (`strings.HasPrefix(strings.ToLower(k), "x-")`) it is spelled with a lower-case `x-`
+(`Responses.UnmarshalJSON` tests the prefix case-sensitively and would read `X-…` as a response) -/
+def NameOK (k : String) : Prop :=
+  (∀ n ∈ keywordList, foldName k = foldName n → k = n) ∧ (isExtKey k = true → hasXPrefix k = true)
 
 /-- a `$ref` / `$schema` member holds a text that the URL printing model leaves alone -/
 def RefTextOK (k : String) (v : Json) : Prop :=
@@ -482,7 +485,7 @@ theorem goesTo_eq {all : List Field} (hsub : ∀ f ∈ all, f.jsonName ∈ keywo
       have hf := List.mem_of_find?_eq_some h2
       have hfold := List.find?_some h2
       simp only [beq_iff_eq] at hfold
-      have := hk f.jsonName (hsub f hf) hfold.symm
+      have := hk.1 f.jsonName (hsub f hf) hfold.symm
       have h3 := hnone f hf
       simp [this] at h3
     | none => simp [hne]
@@ -1797,5 +1800,562 @@ theorem normResponse_isObj {rec : Rec} {j r : Json} (h : normResponse rec j = .o
     · simp at h
     · simp only [pure, Except.pure, Except.ok.injEq] at h; rw [concatMembers_eq] at h; exact ⟨_, h.symm⟩
   · simp only [pure, Except.pure, Except.ok.injEq] at h; rw [concatMembers_eq] at h; exact ⟨_, h.symm⟩
+
+
+/-! ### the named union types -/
+
+theorem strElem_isStr {x y : Json} (h : strElem x = .ok y) : ∃ s, y = .str s := by
+  cases x <;> simp [strElem, pure, Except.pure, goError] at h <;> exact ⟨_, h.symm⟩
+
+theorem mapR_strElem_fixed {xs ys : List Json} (h : mapR strElem xs = .ok ys) : mapR strElem ys = .ok ys :=
+  mapR_fixed ys (fun y hy => by
+    obtain ⟨x, _, hx⟩ := mapR_mem xs ys h y hy
+    exact strElem_fixed hx)
+
+theorem normStringOrArray_second {v r : Json} (h : normStringOrArray v = .ok r) : normStringOrArray r = .ok r := by
+  cases v with
+  | arr xs =>
+    simp only [normStringOrArray, bind, Except.bind] at h
+    split at h
+    · simp at h
+    · rename_i ys hys
+      have hfix := mapR_strElem_fixed hys
+      split at h
+      · rename_i y
+        simp only [pure, Except.pure, Except.ok.injEq] at h; subst h
+        obtain ⟨x, _, hx⟩ := mapR_mem xs [y] hys y (by simp)
+        obtain ⟨s, rfl⟩ := strElem_isStr hx
+        rfl
+      · rename_i hns
+        simp only [pure, Except.pure, Except.ok.injEq] at h; subst h
+        simp only [normStringOrArray, bind, Except.bind, hfix]
+        rfl
+  | str s => simp [normStringOrArray, pure, Except.pure] at h; subst h; rfl
+  | null => simp [normStringOrArray, pure, Except.pure] at h; subst h; rfl
+  | bool _ => simp [normStringOrArray, goError] at h
+  | num _ => simp [normStringOrArray, goError] at h
+  | obj _ => simp [normStringOrArray, goError] at h
+
+theorem schemaObj_second {rec : Rec} (hr : RecGood rec) {v r : Json} (h : rec (.kind "schema") v = .ok r)
+    (hc : Clean r) : ∃ ms, r = .obj ms ∧ rec (.kind "schema") (.obj ms) = .ok (.obj ms) := by
+  obtain ⟨ms, rfl⟩ := hr.isObj _ _ _ h
+  exact ⟨ms, rfl, hr.idem _ _ _ h hc⟩
+
+/-- a map codec applied to a permutation of its own sorted output -/
+theorem mapMembersR_of_fixed {f : Json → R Json} : ∀ (zs : List (String × Json)), (keysOf zs).Nodup →
+    (∀ m ∈ zs, f m.2 = .ok m.2) →
+    ∃ ys, mapMembersR f zs = .ok ys ∧ KeysSorted ys ∧ ∀ m, m ∈ ys ↔ m ∈ zs := by
+  intro zs
+  induction zs with
+  | nil => intro _ _; exact ⟨[], rfl, keysSorted_nil, by simp⟩
+  | cons a rest ih =>
+    obtain ⟨k, v⟩ := a
+    intro hnd hf
+    simp only [keysOf, List.map_cons, List.nodup_cons] at hnd
+    obtain ⟨acc, h1, h2, h3⟩ := ih hnd.2 (fun m hm => hf m (by simp [hm]))
+    have hv : f v = .ok v := hf (k, v) (by simp)
+    have hk : k ∉ keysOf acc := fun hm => hnd.1 (mapMembersR_keys rest acc h1 k hm)
+    refine ⟨insertKeep k v acc, by simp [mapMembersR, hv, h1, bind, Except.bind, pure, Except.pure],
+      insertKeep_sorted k v h2, ?_⟩
+    intro m
+    rw [mem_insertKeep_of_not_key hk m, h3 m]
+    simp [List.mem_cons]
+
+theorem normNamed_second {rec : Rec} (hr : RecGood rec) (n : String) {v r : Json} (h : normNamed rec n v = .ok r)
+    (hc : Clean r) : normNamed rec n r = .ok r := by
+  unfold normNamed at h ⊢
+  split at h
+  · rename_i hn; simp only [hn, if_true]; exact normStringOrArray_second h
+  · rename_i hn1
+    simp only [hn1, if_false]
+    split at h
+    · -- SchemaOrBool
+      rename_i hn; simp only [hn, if_true]
+      cases v with
+      | obj ms =>
+        obtain ⟨ms', rfl, h2⟩ := schemaObj_second hr (by simpa [normSchemaOrBool] using h) hc
+        simpa [normSchemaOrBool] using h2
+      | bool b =>
+        cases b with
+        | false => simp [normSchemaOrBool, pure, Except.pure] at h; subst h; rfl
+        | true => simp [normSchemaOrBool, pure, Except.pure] at h; subst h; rfl
+      | null => simp [normSchemaOrBool, pure, Except.pure] at h; subst h; rfl
+      | num _ => simp [normSchemaOrBool, pure, Except.pure] at h; subst h; rfl
+      | str _ => simp [normSchemaOrBool, pure, Except.pure] at h; subst h; rfl
+      | arr _ => simp [normSchemaOrBool, pure, Except.pure] at h; subst h; rfl
+    · rename_i hn2
+      simp only [hn2, if_false]
+      split at h
+      · -- SchemaOrArray
+        rename_i hn; simp only [hn, if_true]
+        cases v with
+        | obj ms =>
+          obtain ⟨ms', rfl, h2⟩ := schemaObj_second hr (by simpa [normSchemaOrArray] using h) hc
+          simpa [normSchemaOrArray] using h2
+        | arr xs =>
+          simp only [normSchemaOrArray, bind, Except.bind] at h
+          split at h
+          · simp at h
+          · rename_i ys hys
+            simp only [pure, Except.pure, Except.ok.injEq] at h; subst h
+            have := mapR_second hys (fun x y hx hy => hr.idem _ x y hx hy) (clean_arr hc)
+            simp [normSchemaOrArray, this, bind, Except.bind, pure, Except.pure]
+        | null => simp [normSchemaOrArray, pure, Except.pure] at h; subst h; rfl
+        | bool _ => simp [normSchemaOrArray, pure, Except.pure] at h; subst h; rfl
+        | num _ => simp [normSchemaOrArray, pure, Except.pure] at h; subst h; rfl
+        | str _ => simp [normSchemaOrArray, pure, Except.pure] at h; subst h; rfl
+      · rename_i hn3
+        simp only [hn3, if_false]
+        split at h
+        · -- SchemaOrStringArray
+          rename_i hn; simp only [hn, if_true]
+          cases v with
+          | obj ms =>
+            obtain ⟨ms', rfl, h2⟩ := schemaObj_second hr (by simpa [normSchemaOrStringArray] using h) hc
+            simpa [normSchemaOrStringArray] using h2
+          | arr xs =>
+            simp only [normSchemaOrStringArray, bind, Except.bind] at h
+            split at h
+            · simp at h
+            · rename_i ys hys
+              simp only [pure, Except.pure, Except.ok.injEq] at h
+              have hfix := mapR_strElem_fixed hys
+              cases hemp : ys.isEmpty with
+              | true => simp [hemp] at h; subst h; rfl
+              | false =>
+                simp [hemp] at h; subst h
+                simp [normSchemaOrStringArray, hfix, bind, Except.bind, pure, Except.pure, hemp]
+          | null => simp [normSchemaOrStringArray, pure, Except.pure] at h; subst h; rfl
+          | bool _ => simp [normSchemaOrStringArray, pure, Except.pure] at h; subst h; rfl
+          | num _ => simp [normSchemaOrStringArray, pure, Except.pure] at h; subst h; rfl
+          | str _ => simp [normSchemaOrStringArray, pure, Except.pure] at h; subst h; rfl
+        · rename_i hn4
+          simp only [hn4, if_false]
+          split at h
+          · -- SchemaProperties
+            rename_i hn; simp only [hn, if_true]
+            cases v with
+            | obj ms =>
+              simp only [normSchemaProperties, bind, Except.bind] at h
+              split at h
+              · simp at h
+              · rename_i ys hys
+                simp only [pure, Except.pure, Except.ok.injEq] at h; subst h
+                have hsorted := mapMembersR_sorted ms ys hys
+                have hperm := sortBy_perm_generic lessItem ys
+                have hcm := clean_obj hc
+                obtain ⟨ys', e1, e2, e3⟩ := mapMembersR_of_fixed (f := rec (.kind "schema")) (sortBy lessItem ys)
+                  (perm_nodup_keys hperm (keysSorted_nodup hsorted))
+                  (fun m hm => by
+                    obtain ⟨x, _, _, hx⟩ := mapMembersR_mem ms ys hys m (hperm.mem_iff.mp hm)
+                    exact hr.idem _ _ _ hx (hcm m hm).2.2.2)
+                have : ys' = ys := sorted_ext e2 hsorted (fun m => by rw [e3 m]; exact hperm.mem_iff)
+                subst this
+                simp [normSchemaProperties, e1, bind, Except.bind, pure, Except.pure]
+            | null => simp [normSchemaProperties, pure, Except.pure] at h; subst h; rfl
+            | bool _ => simp [normSchemaProperties, goError] at h
+            | num _ => simp [normSchemaProperties, goError] at h
+            | str _ => simp [normSchemaProperties, goError] at h
+            | arr _ => simp [normSchemaProperties, goError] at h
+          · simp [outOfModel] at h
+
+
+/-! ### strconv.Atoi ∘ strconv.Itoa -/
+
+theorem digitVal_of_isDigit {c : Char} (h : c.isDigit = true) : digitVal c = some (c.toNat - 48) := by
+  unfold digitVal
+  have : '0' ≤ c ∧ c ≤ '9' := by
+    simp only [Char.isDigit, Bool.and_eq_true, decide_eq_true_eq] at h
+    exact ⟨by simpa [Char.le_def] using h.1, by simpa [Char.le_def] using h.2⟩
+  simp [this]
+
+theorem digitsVal_eq : ∀ (cs : List Char) (acc : Nat), (∀ c ∈ cs, c.isDigit = true) →
+    digitsVal cs acc = some (Nat.ofDigitChars 10 cs acc) := by
+  intro cs
+  induction cs with
+  | nil => intro acc _; simp [digitsVal, Nat.ofDigitChars_nil]
+  | cons c rest ih =>
+    intro acc h
+    simp only [digitsVal, digitVal_of_isDigit (h c (by simp)), Nat.ofDigitChars_cons]
+    rw [ih _ (fun d hd => h d (by simp [hd]))]
+    congr 2
+    show acc * 10 + (c.toNat - 48) = 10 * acc + (c.toNat - '0'.toNat)
+    have : '0'.toNat = 48 := rfl
+    rw [this]; omega
+
+theorem digitsVal_toDigits (m : Nat) : digitsVal (Nat.toDigits 10 m) 0 = some m := by
+  rw [digitsVal_eq _ _ (fun c hc => Nat.isDigit_of_mem_toDigits (by decide) (by decide) hc)]
+  simp
+
+
+def int64Range (v : Int) : Prop := -9223372036854775808 ≤ v ∧ v ≤ 9223372036854775807
+
+theorem atoi_itoa (n : Int) (hr : int64Range n) : atoi (itoa n) = some n := by
+  unfold itoa atoi
+  cases n with
+  | ofNat m =>
+    have hrepr : (toString (Int.ofNat m)).toList = Nat.toDigits 10 m := by
+      show (toString m).toList = _
+      exact Nat.toList_repr
+    rw [hrepr]
+    cases hd : Nat.toDigits 10 m with
+    | nil => exact absurd hd Nat.toDigits_ne_nil
+    | cons c rest =>
+      have hc : c.isDigit := Nat.isDigit_of_mem_toDigits (by decide) (by decide) (hd ▸ List.mem_cons_self ..)
+      have h1 : c ≠ '-' := by intro h'; subst h'; simp [Char.isDigit] at hc
+      have h2 : c ≠ '+' := by intro h'; subst h'; simp [Char.isDigit] at hc
+      have hv := digitsVal_toDigits m
+      rw [hd] at hv
+      split
+      · rename_i heq; simp at heq; exact absurd heq.1 h1
+      · rename_i heq; simp at heq; exact absurd heq.1 h2
+      · have hr' : -9223372036854775808 ≤ (m : Int) ∧ (m : Int) ≤ 9223372036854775807 := hr
+        simp [hv, hr']
+  | negSucc m =>
+    have hlist : (toString (Int.negSucc m)).toList = '-' :: Nat.toDigits 10 (m + 1) := by
+      show ("-" ++ toString (m + 1)).toList = _
+      simp [Nat.toList_repr]
+    rw [hlist]
+    have hv := digitsVal_toDigits (m + 1)
+    cases hd : Nat.toDigits 10 (m + 1) with
+    | nil => exact absurd hd Nat.toDigits_ne_nil
+    | cons c rest =>
+      rw [hd] at hv
+      have hr' : -9223372036854775808 ≤ -((m + 1 : Nat) : Int) ∧ -((m + 1 : Nat) : Int) ≤ 9223372036854775807 := by
+        have : Int.negSucc m = -((m + 1 : Nat) : Int) := rfl
+        rw [← this]; exact hr
+      simp [hv]
+      have e : Int.negSucc m = -((m : Int) + 1) := by omega
+      refine ⟨?_, by omega⟩
+      unfold int64Range at hr
+      omega
+
+
+theorem atoi_range {s : String} {n : Int} (h : atoi s = some n) : int64Range n := by
+  unfold atoi at h
+  simp only at h
+  repeat' split at h
+  all_goals first
+    | (simp at h; done)
+    | (simp at h; unfold int64Range; omega)
+
+theorem atoi_default : atoi "default" = none := by decide
+
+theorem itoa_ne_default {n : Int} (hr : int64Range n) : itoa n ≠ "default" := by
+  intro h
+  have := atoi_itoa n hr
+  rw [h, atoi_default] at this
+  simp at this
+
+theorem hasXPrefix_isExtKey {k : String} (h : hasXPrefix k = true) : isExtKey k = true := by
+  unfold hasXPrefix at h
+  unfold isExtKey
+  split at h
+  · rename_i heq; rw [heq]; rfl
+  · simp at h
+
+theorem hasXPrefix_itoa (n : Int) : hasXPrefix (itoa n) = false := by
+  cases h : hasXPrefix (itoa n) with
+  | false => rfl
+  | true => have := hasXPrefix_isExtKey h; rw [isExtKey_itoa] at this; simp at this
+
+/-! ### Go maps of objects without duplicate names -/
+
+theorem toGoMap_mem_iff : ∀ (ms : List (String × Json)), (keysOf ms).Nodup → ∀ m, m ∈ toGoMap ms ↔ m ∈ ms := by
+  intro ms
+  induction ms with
+  | nil => intro _ m; simp [toGoMap]
+  | cons a rest ih =>
+    obtain ⟨k, v⟩ := a
+    intro hnd m
+    simp only [keysOf, List.map_cons, List.nodup_cons] at hnd
+    have hk : k ∉ keysOf (toGoMap rest) := fun hm => hnd.1 (toGoMap_keys rest k hm)
+    show m ∈ insertKeep k v (toGoMap rest) ↔ _
+    rw [mem_insertKeep_of_not_key hk m, ih hnd.2 m]
+    simp [List.mem_cons]
+
+theorem toGoMap_eq_of_sorted_mem {ms b : List (String × Json)} (hnd : (keysOf ms).Nodup) (hb : KeysSorted b)
+    (h : ∀ m, m ∈ ms ↔ m ∈ b) : toGoMap ms = b :=
+  sorted_ext (toGoMap_sorted ms) hb (fun m => by rw [toGoMap_mem_iff ms hnd m, h m])
+
+
+/-! ### Responses -/
+
+/-- keys `Responses.UnmarshalJSON` does not read as status codes -/
+def skipKey (k : String) : Bool := k == "default" || hasXPrefix k
+
+theorem statusEntries_img {rec : Rec} : ∀ (ms : List (String × Json)) (es : List (Int × Json)),
+    statusEntries rec ms = .ok es → ∀ e ∈ es, int64Range e.1 ∧ ∃ v, rec (.kind "response") v = .ok e.2 := by
+  intro ms
+  induction ms with
+  | nil => intro es h; simp [statusEntries, pure, Except.pure] at h; subst h; simp
+  | cons a rest ih =>
+    obtain ⟨k, v⟩ := a
+    intro es h
+    simp only [statusEntries] at h
+    split at h
+    · exact ih es h
+    · simp only [bind, Except.bind] at h
+      split at h
+      · simp at h
+      · rename_i r hr'
+        split at h
+        · simp at h
+        · rename_i more hmore
+          split at h
+          · rename_i n hn
+            simp only [pure, Except.pure, Except.ok.injEq] at h; subst h
+            intro e he
+            rcases List.mem_cons.mp he with rfl | he
+            · exact ⟨atoi_range hn, v, hr'⟩
+            · exact ih more hmore e he
+          · simp only [pure, Except.pure, Except.ok.injEq] at h; subst h
+            exact ih more hmore
+
+/-- reading back a list whose status-code members are decimal numerals holding fixed points -/
+theorem statusEntries_char {rec : Rec} : ∀ (zs : List (String × Json)),
+    (∀ m ∈ zs, skipKey m.1 = true ∨ ∃ n, m.1 = itoa n ∧ int64Range n ∧ rec (.kind "response") m.2 = .ok m.2) →
+    ∃ cs, statusEntries rec zs = .ok cs ∧
+      cs.map (fun e => (itoa e.1, e.2)) = zs.filter (fun m => !skipKey m.1) := by
+  intro zs
+  induction zs with
+  | nil => intro _; exact ⟨[], rfl, rfl⟩
+  | cons a rest ih =>
+    obtain ⟨k, v⟩ := a
+    intro h
+    obtain ⟨cs, h1, h2⟩ := ih (fun m hm => h m (by simp [hm]))
+    cases hs : skipKey k with
+    | true =>
+      refine ⟨cs, ?_, by simp [List.filter_cons, hs, h2]⟩
+      have : (k == "default" || hasXPrefix k) = true := hs
+      simp [statusEntries, this, h1]
+    | false =>
+      rcases h (k, v) (by simp) with h' | ⟨n, hk, hr, hv⟩
+      · simp only at h'; rw [hs] at h'; simp at h'
+      · simp only at hk hv
+        have hs' : (k == "default" || hasXPrefix k) = false := hs
+        refine ⟨(n, v) :: cs, ?_, ?_⟩
+        · simp only [statusEntries, hs', Bool.false_eq_true, if_false, bind, Except.bind, hv, h1]
+          rw [hk, atoi_itoa n hr]
+          rfl
+        · have hs2 : skipKey (itoa n) = false := by rw [← hk]; exact hs
+          simp [List.filter_cons, hs2, h2, hk]
+
+theorem hasDupCodes_false : ∀ (cs : List (Int × Json)), (cs.map (fun e => itoa e.1)).Nodup → hasDupCodes cs = false := by
+  intro cs
+  induction cs with
+  | nil => intro _; rfl
+  | cons a rest ih =>
+    obtain ⟨n, v⟩ := a
+    intro h
+    simp only [List.map_cons, List.nodup_cons] at h
+    simp only [hasDupCodes, Bool.or_eq_false_iff, ih h.2, and_true]
+    rw [List.any_eq_false]
+    intro e he
+    simp only [beq_iff_eq]
+    intro heq
+    exact h.1 (List.mem_map.mpr ⟨e, he, by rw [heq]⟩)
+
+/-- what the first pass leaves in the `ResponsesProps` part -/
+def RespMember (rec : Rec) (m : String × Json) : Prop :=
+  (∃ v, rec (.kind "response") v = .ok m.2) ∧ (m.1 = "default" ∨ ∃ n, m.1 = itoa n ∧ int64Range n)
+
+theorem normResponsesProps_img {rec : Rec} {j : Json} {b1 : List (String × Json)}
+    (h : normResponsesProps rec j = .ok b1) : KeysSorted b1 ∧ ∀ m ∈ b1, RespMember rec m := by
+  cases j with
+  | null => simp [normResponsesProps, pure, Except.pure] at h; subst h; exact ⟨keysSorted_nil, by simp⟩
+  | bool _ => simp [normResponsesProps, goError] at h
+  | num _ => simp [normResponsesProps, goError] at h
+  | str _ => simp [normResponsesProps, goError] at h
+  | arr _ => simp [normResponsesProps, goError] at h
+  | obj ms =>
+    simp only [normResponsesProps, bind, Except.bind] at h
+    split at h
+    · simp at h
+    · rename_i dflt hdflt
+      split at h
+      · simp at h
+      · rename_i codes hcodes
+        split at h
+        · simp [outOfModel] at h
+        · simp only [pure, Except.pure, Except.ok.injEq] at h; subst h
+          refine ⟨toGoMap_sorted _, ?_⟩
+          intro m hm
+          have := toGoMap_members _ m hm
+          rcases List.mem_append.mp this with h1 | h1
+          · unfold defaultPart at hdflt
+            split at hdflt
+            · simp only [bind, Except.bind] at hdflt
+              split at hdflt
+              · simp at hdflt
+              · rename_i v _ _ r hr'
+                simp only [pure, Except.pure, Except.ok.injEq] at hdflt
+                rw [← hdflt] at h1
+                simp at h1; subst h1
+                exact ⟨⟨v, hr'⟩, .inl rfl⟩
+            · simp only [pure, Except.pure, Except.ok.injEq] at hdflt
+              rw [← hdflt] at h1; simp at h1
+          · obtain ⟨e, he, rfl⟩ := List.mem_map.mp h1
+            have ⟨i1, i2⟩ := statusEntries_img _ codes hcodes e he
+            exact ⟨i2, .inr ⟨e.1, rfl, i1⟩⟩
+
+
+theorem lookupKey_none_not_mem {ms : List (String × Json)} {n : String} (hnd : (keysOf ms).Nodup)
+    (h : lookupKey ms n = none) : n ∉ keysOf ms := by
+  intro hk
+  simp only [keysOf, List.mem_map] at hk
+  obtain ⟨m, hm, rfl⟩ := hk
+  have := lookupKey_of_mem hnd (show (m.1, m.2) ∈ ms from hm)
+  rw [h] at this; simp at this
+
+theorem normResponsesProps_second {rec : Rec} (hr : RecGood rec) {b1 b2 : List (String × Json)}
+    (hs : KeysSorted b1) (himg : ∀ m ∈ b1, RespMember rec m) (hnd : (keysOf (b1 ++ b2)).Nodup)
+    (hclean : CleanM (b1 ++ b2)) (hb2 : ∀ m ∈ b2, isExtKey m.1 = true) :
+    normResponsesProps rec (.obj (b1 ++ b2)) = .ok b1 := by
+  have hraw_mem := toGoMap_mem_iff (b1 ++ b2) hnd
+  have hraw_sorted := toGoMap_sorted (b1 ++ b2)
+  have hraw_nd := keysSorted_nodup hraw_sorted
+  have hb1nd : (keysOf b1).Nodup := keysSorted_nodup hs
+  have hfix : ∀ m ∈ b1, rec (.kind "response") m.2 = .ok m.2 := by
+    intro m hm
+    obtain ⟨⟨v, hv⟩, _⟩ := himg m hm
+    exact hr.idem _ _ _ hv (cleanM_vals hclean m (List.mem_append.mpr (.inl hm))).1
+  have hskip2 : ∀ m ∈ b2, skipKey m.1 = true := by
+    intro m hm
+    have := (cleanM_names hclean m (List.mem_append.mpr (.inr hm))).2 (hb2 m hm)
+    simp [skipKey, this]
+  have hb1_nonskip : ∀ m ∈ b1, m.1 ≠ "default" → skipKey m.1 = false := by
+    intro m hm hne
+    rcases (himg m hm).2 with h1 | ⟨n, h1, hrg⟩
+    · exact absurd h1 hne
+    · simp [skipKey, h1, hasXPrefix_itoa, itoa_ne_default hrg]
+  -- the `default` member
+  have hdflt : defaultPart rec (toGoMap (b1 ++ b2)) =
+      .ok (match lookupKey b1 "default" with | some rd => [("default", rd)] | none => []) := by
+    cases hl : lookupKey b1 "default" with
+    | some rd =>
+      have hm := lookupKey_mem hl
+      have : lookupKey (toGoMap (b1 ++ b2)) "default" = some rd :=
+        lookupKey_of_mem hraw_nd ((hraw_mem _).mpr (List.mem_append.mpr (.inl hm)))
+      simp [defaultPart, this, hfix _ hm, bind, Except.bind, pure, Except.pure]
+    | none =>
+      have h1 := lookupKey_none_not_mem hb1nd hl
+      have : "default" ∉ keysOf (toGoMap (b1 ++ b2)) := by
+        intro hk
+        have := toGoMap_keys _ _ hk
+        simp only [keysOf, List.map_append, List.mem_append] at this
+        rcases this with h' | h'
+        · exact h1 h'
+        · simp only [List.mem_map] at h'
+          obtain ⟨m, hm, heq⟩ := h'
+          have := hb2 m hm
+          rw [heq] at this
+          exact absurd this (by decide)
+      simp [defaultPart, lookupKey_none this, pure, Except.pure]
+  -- the status codes
+  obtain ⟨cs, hcs, hcsm⟩ := statusEntries_char (rec := rec) (toGoMap (b1 ++ b2)) (by
+    intro m hm
+    rcases List.mem_append.mp ((hraw_mem m).mp hm) with h1 | h1
+    · rcases (himg m h1).2 with h2 | ⟨n, h2, h3⟩
+      · left; simp [skipKey, h2]
+      · exact .inr ⟨n, h2, h3, hfix m h1⟩
+    · exact .inl (hskip2 m h1))
+  have hdup : hasDupCodes cs = false := by
+    apply hasDupCodes_false
+    have : cs.map (fun e => itoa e.1) = keysOf ((toGoMap (b1 ++ b2)).filter (fun m => !skipKey m.1)) := by
+      rw [← hcsm]; simp [keysOf, List.map_map, Function.comp_def]
+    rw [this]
+    exact keysOf_filter_nodup _ hraw_nd
+  -- the Go map built from them is the first pass's
+  have hres : toGoMap ((match lookupKey b1 "default" with | some rd => [("default", rd)] | none => []) ++
+      (toGoMap (b1 ++ b2)).filter (fun m => !skipKey m.1)) = b1 := by
+    have hfilt_nd := keysOf_filter_nodup (fun m => !skipKey m.1) hraw_nd
+    have hfilt_mem : ∀ m, m ∈ (toGoMap (b1 ++ b2)).filter (fun m => !skipKey m.1) ↔ (m ∈ b1 ∧ m.1 ≠ "default") := by
+      intro m
+      simp only [List.mem_filter, hraw_mem m, List.mem_append, Bool.not_eq_true']
+      constructor
+      · rintro ⟨h1 | h1, h2⟩
+        · refine ⟨h1, ?_⟩
+          intro heq; simp [skipKey, heq] at h2
+        · rw [hskip2 m h1] at h2; simp at h2
+      · rintro ⟨h1, h2⟩
+        exact ⟨.inl h1, hb1_nonskip m h1 h2⟩
+    apply toGoMap_eq_of_sorted_mem _ hs
+    · intro m
+      cases hl : lookupKey b1 "default" with
+      | some rd =>
+        have hm := lookupKey_mem hl
+        simp only [List.mem_append, List.mem_cons, List.not_mem_nil, or_false, hfilt_mem m]
+        constructor
+        · rintro (h1 | ⟨h1, _⟩)
+          · rw [h1]; exact hm
+          · exact h1
+        · intro h1
+          by_cases hk : m.1 = "default"
+          · left
+            have := lookupKey_of_mem hb1nd (show (m.1, m.2) ∈ b1 from h1)
+            rw [hk, hl] at this
+            simp only [Option.some.injEq] at this
+            obtain ⟨a, b⟩ := m
+            simp only at hk this
+            rw [hk, this]
+          · exact .inr ⟨h1, hk⟩
+      | none =>
+        have h0 := lookupKey_none_not_mem hb1nd hl
+        simp only [List.nil_append, hfilt_mem m]
+        constructor
+        · exact fun h1 => h1.1
+        · intro h1
+          exact ⟨h1, fun heq => h0 (by rw [← heq]; exact mem_keysOf h1)⟩
+    · cases hl : lookupKey b1 "default" with
+      | some rd =>
+        simp only [keysOf, List.cons_append, List.nil_append, List.map_cons, List.nodup_cons]
+        refine ⟨?_, hfilt_nd⟩
+        intro hk
+        simp only [List.mem_map] at hk
+        obtain ⟨m, hm, heq⟩ := hk
+        exact ((hfilt_mem m).mp hm).2 heq
+      | none => simpa using hfilt_nd
+  simp only [normResponsesProps, rawMap, bind, Except.bind, hdflt, hcs, hdup, Bool.false_eq_true, if_false, pure,
+    Except.pure, hcsm, hres]
+
+theorem normResponses_second {rec : Rec} (hr : RecGood rec) {j r : Json} (h : normResponses rec j = .ok r)
+    (hc : Clean r) : normResponses rec r = .ok r := by
+  have hnd := normResponses_nd hr.nd h
+  simp only [normResponses, bind, Except.bind] at h
+  split at h
+  · simp at h
+  · rename_i b1 hb1
+    split at h
+    · simp at h
+    · rename_i b2 hb2
+      simp only [pure, Except.pure, Except.ok.injEq] at h; subst h
+      rw [concatMembers_eq] at hnd hc ⊢
+      have hfl : [b1, b2].flatten = b1 ++ b2 := by simp
+      rw [hfl] at hnd hc ⊢
+      have hout : (keysOf (b1 ++ b2)).Nodup := by simpa [ND, keysOf] using hnd.1
+      have hclean : CleanM (b1 ++ b2) := by simpa [Clean] using hc
+      have ⟨i1, i2⟩ := normResponsesProps_img hb1
+      have c2 := normExtensions_conf hb2
+      have hb2x : ∀ m ∈ b2, isExtKey m.1 = true := by
+        intro m hm
+        rcases c2.1.2 m.1 (mem_keysOf hm) with h' | ⟨_, h'⟩
+        · simp at h'
+        · exact h'
+      have ⟨_, _, hb1x⟩ := normResponsesProps_nd hr.nd hb1
+      have h1 := normResponsesProps_second hr i1 i2 hout hclean hb2x
+      have h2 := normExtensions_second hb2 hout hclean (fun m hm => List.mem_append.mpr (.inr hm)) (by
+        intro m hm hx
+        rcases List.mem_append.mp hm with h' | h'
+        · have := hb1x m.1 (mem_keysOf h')
+          rw [hx] at this; simp at this
+        · exact h')
+      simp only [normResponses, bind, Except.bind, h1, h2, pure, Except.pure]
+      rw [concatMembers_eq, hfl]
+
+theorem normResponses_isObj {rec : Rec} {j r : Json} (h : normResponses rec j = .ok r) : ∃ ms, r = .obj ms := by
+  simp only [normResponses, bind, Except.bind] at h
+  repeat (split at h; (· simp at h))
+  simp only [pure, Except.pure, Except.ok.injEq] at h; rw [concatMembers_eq] at h; exact ⟨_, h.symm⟩
 
 end SpecModel.Codec
